@@ -61,7 +61,7 @@ claimed = {
  "C17": dict(level="exploration", technique="property-based testing (rapid), differential: d<motion> vs y<motion> (and v<motion>d / v<motion>y) from identical generated states in two fresh pty sessions",
    text="For generated buffers, cursor positions, motions/text objects and counts, the register after delete must equal the register after yank, yank must leave the buffer unchanged and delete must remove exactly one contiguous occurrence of that text. Differential oracle needs no model of the motions themselves.",
    note=RIG_NOTE + " Keys one per read.", ref="DESIGN.md §3 C17"),
- "C18": dict(level="exploration", technique="property-based testing (rapid), metamorphic: session [B0, K, K^r] typed vs session [B0, record K, replay r times] (r up to 30), emacs and vi macro styles",
+ "C18": dict(level="exploration", technique="property-based testing (rapid), metamorphic: session [B0, K, K^r] typed vs session [B0, record K, replay r times] (r up to 24), emacs and vi macro styles",
    text="Generated key scripts K (printable, control, ESC-prefixed, CSI, quoted-insert, vi command keys) are typed 1+r times in one session and recorded once + replayed r times in another; final buffer, cursor, keymap and returned line must agree. Metamorphic oracle; cases where K itself is not deterministic are discarded and counted.",
    note=RIG_NOTE + " One known finding (lone ESC followed by a key forming an ESC-prefixed binding) excluded by construction and reported from a regress case.", ref="DESIGN.md §3 C18"),
  "C19": dict(level="exploration", technique="property-based testing (rapid) + bounded-exhaustive enumeration: Unescape(Escape(s)) round trip over all single runes 0x00-0xFF, all default bindings, significant triples and random sequences; round trip of the dump commands through a second shell configured from their output; native fuzzing in the thorough tier",
